@@ -1,6 +1,8 @@
 import PPLV.Checked.ProofsExt2
 import PPLV.Checked.ProofsBounded
 import PPLV.Checked.ProofsPre
+import PPLV.Checked.ProofsSpec
+import PPLV.Checked.ProofsExt3
 /-!
 # C11 — checked arithmetic reports true rounding relations; bounded builds never lie
 
@@ -28,7 +30,7 @@ Clauses the unchanged code violates are stated as `…_fails` on a concrete witn
 overflow), `umod2exp` (result lands on the bit pattern of `+∞`), `sqrt` (signed operand
 `≥ 2^(bits-2)`: the bit-by-bit loop overflows its accumulator), `lcm` (the result code of an
 intermediate `abs` is returned without anything being stored).
-Not covered by theorems (correspondence only): `smod2exp`, `sqrt`, `gcd`, `lcm`.
+Not covered by theorems (correspondence only): `sqrt`, `gcd`, `lcm`.
 -/
 namespace C11
 open PPLV.Checked PPLV.Checked.Result
@@ -185,6 +187,22 @@ theorem div2exp_holds {t : IntTy} {π : Policy} (c : Cfg t π) (dir : Dir) (a : 
   exact div2expExt_okq c.wf dir a.e ⟨z1, z2⟩ ⟨x1, x2⟩
 
 example : IntOp.run .i8 .checkOverflowOnly .div2exp .down { x := -7, e := 1 } = (-4, V_GT) := by decide
+
+theorem smod2exp_holds {t : IntTy} {π : Policy} (c : Cfg t π) (dir : Dir) (a : Operands)
+    (hpre : IntOp.pre t π .smod2exp a = true) :
+    OKQ t π dir (IntOp.run t π .smod2exp dir a) (IntOp.exact t π .smod2exp a).toQ := by
+  simp only [IntOp.pre, Bool.and_eq_true, decide_eq_true_eq, Bool.or_eq_true, Bool.not_eq_true'] at hpre
+  obtain ⟨⟨⟨⟨x1, x2⟩, z1, z2⟩, he⟩, hp⟩ := hpre
+  simp only [IntOp.run, IntOp.exact]
+  have := ok_toQ (smod2expExt_ok c.wf c.signed_two_bits dir a.e he ⟨z1, z2⟩ ⟨x1, x2⟩ hp)
+  have e : (exactSmod (t.denote π a.x) a.e).toQ =
+      Ext.map Int.cast (match t.denote π a.x with | .fin v => Ext.fin (smodInt v a.e) | _ => Ext.nan) := by
+    cases t.denote π a.x <;> simp [exactSmod, Exact.ofInt, Exact.toQ, Ext.map]
+  rw [e]
+  exact this
+
+example : IntOp.run .i8 .checkOverflowOnly .smod2exp .down { x := 100, e := 7 } = (-28, V_EQ) := by decide
+example : IntOp.run .u8 .checkOverflowOnly .smod2exp .up { x := 200, e := 8 } = (0, V_LT_INF) := by decide
 
 /-! ## division: wrong for a negative divisor -/
 
@@ -356,7 +374,7 @@ theorem lcm_model_fails :
 
 /-- operations for which theorems exist -/
 def proved : IntOp → Bool
-  | .smod2exp | .sqrt | .gcd | .lcm => false
+  | .sqrt | .gcd | .lcm => false
   | _ => true
 
 /-- the three input classes where the unchanged code is wrong (among the proved operations) -/
@@ -369,7 +387,7 @@ def knownBad (t : IntTy) (π : Policy) (op : IntOp) (dir : Dir) (a : Operands) :
 
 /-- **C11.op_holds**, partial: for every width, signedness, policy, direction and operand bit
 patterns within the contract — relation, direction, overflow claim, no wrap, NaN stored.
-Missing: `smod2exp`, `sqrt`, `gcd`, `lcm` (no theorem) and the three `knownBad` input classes
+Missing: `sqrt`, `gcd`, `lcm` (no theorem) and the three `knownBad` input classes
 (the code is wrong there: `div_holds_fails`, `subMul_holds_fails`, `umod2exp_holds_fails`). -/
 theorem op_holds_partial {t : IntTy} {π : Policy} (c : Cfg t π) (op : IntOp) (hop : proved op = true)
     (hasg : ∀ f πf, op = .assign f πf → f.WF πf ∧ t.GapOK f)
@@ -392,7 +410,7 @@ theorem op_holds_partial {t : IntTy} {π : Policy} (c : Cfg t π) (op : IntOp) (
   | mul2exp => exact mul2exp_holds c dir a hpre
   | div2exp => exact div2exp_holds c dir a hpre
   | umod2exp => exact umod2exp_holds_partial c dir a hpre hgood
-  | smod2exp => cases hop
+  | smod2exp => exact smod2exp_holds c dir a hpre
   | sqrt => cases hop
   | gcd => cases hop
   | lcm => cases hop
@@ -417,5 +435,27 @@ have produced a different answer (100 + 100 on `int8_t`) -/
 example : (runB .i8 .checkOverflowOnly .ignore [.mul 2 0 1, .addMul 2 0 0, .div 3 2 1] (fun i => if i = 0 then 7 else 3)).map
     (fun r => (r 2, r 3)) = some (70, 23) := by decide
 example : runB .i8 .checkOverflowOnly .ignore [.add 2 0 0] (fun _ => 100) = none := by decide
+
+/-! ## the checker that judges the real library's output decides the property clauses -/
+
+/-- **The driver's verdict on a real output is the property clause itself.**  `pplv_c11` evaluates
+`K4.holdsB`, `K4.directedB`, `K4.overflowHoldsB` on the (stored value, result code) printed by the
+library and the exact result `IntOp.exact`; for every operation except `sqrt` (whose exact result
+is irrational and is compared through squares) these Booleans are equivalent to `K4.holds`,
+`K4.directed`, `K4.overflowHolds` over `ℚ`. -/
+theorem checker_decides (t : IntTy) (π : Policy) (op : IntOp) (hop : op ≠ .sqrt) (dir : Dir) (a : Operands)
+    (r : Result) (stored : Int) :
+    let exact := IntOp.exact t π op a
+    let st := t.denote π stored
+    (K4.holdsB r st exact = true ↔ K4.holds r (st.map (Int.cast : Int → Rat)) exact.toQ) ∧
+    (K4.directedB dir r st exact = true ↔ K4.directed dir r (st.map (Int.cast : Int → Rat)) exact.toQ) ∧
+    (K4.overflowHoldsB r (t.emin π) (t.emax π) exact = true ↔
+      K4.overflowHolds r ((t.emin π : Int) : Rat) ((t.emax π : Int) : Rat) exact.toQ) := by
+  have he := exact_rational t π op a hop
+  exact ⟨holdsB_iff he r _, directedB_iff he dir r _, overflowHoldsB_iff he r _ _⟩
+
+/-- non-vacuity: the checker rejects the library's answer to `7 / -2` and accepts `-7 / 2` -/
+example : K4.holdsB V_GT (.fin (-3)) (IntOp.exact .i8 .checkOverflowOnly .div { x := 7, y := -2 }) = false := by decide
+example : K4.holdsB V_GT (.fin (-4)) (IntOp.exact .i8 .checkOverflowOnly .div { x := -7, y := 2 }) = true := by decide
 
 end C11
